@@ -97,7 +97,8 @@ int disasm_ebpf(
 
   strcpy(instruction, "???");
 
-  return 2;
+  // An eBPF instruction is 8 bytes (one addressable unit).
+  return 8;
 }
 
 void list_output_ebpf(
